@@ -96,8 +96,17 @@ def front_projection(eng):
     return out
 
 
-def run_scenario(sc, watchdog=5.0):
-    """Returns the raw event list of one run of the real engine."""
+_STALLS = [0]
+
+
+def run_scenario(sc, watchdog=20.0):
+    """Returns the raw event list of one run of the real engine.
+
+    The watchdog is generous (machine load must not turn into a verdict); once
+    several runs have hung it is shortened so that a hanging tree does not cost
+    20 s per scenario."""
+    if _STALLS[0] >= 3:
+        watchdog = min(watchdog, 3.0)
     t0 = sc.get('t0', 0)
     if sc.get('precision') is not None:
         t0 = round(t0 * 10.0 ** -sc['precision'], sc['precision'])
@@ -117,9 +126,11 @@ def run_scenario(sc, watchdog=5.0):
                 rec.add('return', eng.global_time, front_projection(eng))
             eng.end()
     except Stall:
+        _STALLS[0] += 1
         rec.events.append(('stall',))
     except BaseException as e:  # noqa: the engine re-wraps exceptions
         if rec.stalled:
+            _STALLS[0] += 1
             rec.events.append(('stall',))
         else:
             rec.events.append(('exc', type(e).__name__ + ': ' + str(e)[:200]))
